@@ -9,6 +9,19 @@ open Hidi
 structure St where
   dev : DevSt := {}
 
+/-- note-name engine (C11) -/
+def noteLine (toks : List String) : Option String :=
+  match toks with
+  | ["s2n", h] =>
+    match stringToNote ((unhexBytes h).map Char.ofNat) with
+    | .ok n => some (toString n)
+    | _ => some "err"
+  | ["n2s", n] =>
+    let k := tokNat n % 256
+    let p := noteToPitch k
+    some s!"{if p.isEmpty then "-" else String.join (p.map (fun c => hex2 c.toNat))} {noteToOctave k}"
+  | _ => none
+
 def St.line (s : St) (line : String) : St × Option String :=
   let toks := (line.splitOn " ").filter (· ≠ "")
   match toks with
@@ -16,6 +29,7 @@ def St.line (s : St) (line : String) : St × Option String :=
   | "case" :: _ => (s, some line)
   | t :: _ =>
     if t.startsWith "#" then (s, none)
+    else if t = "s2n" ∨ t = "n2s" then (s, noteLine toks)
     else
       let (d, o) := s.dev.line toks
       ({ s with dev := d }, o)
